@@ -16,6 +16,7 @@ ByzProps2 == {[p |-> 2, v |-> 0], [p |-> 2, v |-> 1]}
 ByzProps4 == {[p |-> 4, v |-> 0]}
 NoProps == {}
 Claims4 == {{}, {2}, {3}, {2, 3}, {3, 4}, {2, 4}}
+Claims4s == {{}, {2}, {2, 3}}
 NoClaims == {{}}
 
 CONSTANTS MaxDepth
